@@ -51,6 +51,12 @@ static void check_case(int d, const std::vector<double>& E, double t, const Alph
       { SU_vector r = SU_vector(A).Evolve(H, t); got.push_back({"SU_vector(A).Evolve(H,t) [construct]", comps(r)}); }
       { SU_vector r; r = SU_vector(A + A).Evolve(buf.data()); std::vector<double> g = comps(r); for (auto& x : g) x *= 0.5; got.push_back({"SU_vector(A+A).Evolve(buf)/2", g}); }
       { std::vector<double> zb(d * (d - 1)); H.PrepareEvolve(zb.data(), 0.0); SU_vector r = SU_vector(A.Evolve(zb.data())).Evolve(buf.data()); got.push_back({"SU_vector(A.Evolve(buf0)).Evolve(buf) [chained]", comps(r)}); }
+      // the evolved vector (and the operator) is an unevaluated expression; chained evolutions
+      { SU_vector r = (A + A).Evolve(H, t); std::vector<double> g = comps(r); for (auto& x : g) x *= 0.5; got.push_back({"(A+A).Evolve(H,t)/2", g}); }
+      { SU_vector r = (A * 2.0).Evolve(H, t); std::vector<double> g = comps(r); for (auto& x : g) x *= 0.5; got.push_back({"(A*2).Evolve(H,t)/2", g}); }
+      { SU_vector r = (-A).Evolve(H, t); std::vector<double> g = comps(r); for (auto& x : g) x = -x; got.push_back({"-(-A).Evolve(H,t)", g}); }
+      { SU_vector Z(d); SU_vector r = (A - Z).Evolve(H + Z, t); got.push_back({"(A-0).Evolve(H+0,t)", comps(r)}); }
+      { SU_vector r = A.Evolve(H, 0.25 * t).Evolve(H, 0.75 * t); std::vector<double> g = comps(r); double e = maxdiff(g, want); if (!(e <= 3 * tol)) got.push_back({"A.Evolve(H,t/4).Evolve(H,3t/4)", g}); else count("evaluations"); }
       // the evolved vector (or the operator) is a second object viewing the storage the target owns
       { SU_vector rho = A; SU_vector view((unsigned)d, &rho[0]); rho = view.Evolve(H, t); got.push_back({"owner = view_of_owner.Evolve(H,t)", comps(rho)}); }
       { SU_vector rho = A; SU_vector view((unsigned)d, &rho[0]); rho = view.Evolve(buf.data()); got.push_back({"owner = view_of_owner.Evolve(buf)", comps(rho)}); }
